@@ -203,7 +203,51 @@ def run(chk):
     except (Undecided, KeyError, IndexError) as ex:
         chk.undecided("C13.E", "Ecube constants", str(ex))
     eqs = [bd for bd, sty, tr in facts.trait_impl_methods("std::cmp::PartialEq") if sty.get("path") == ECUBE]
-    chk.add("C13.E", "Ecube equality is derived over (vars, xnor)", PROVED if eqs and eqs[0]["impl"]["derived"] else UNDECIDED, "")
+    # equality is semantic equality: the == body on two symbolic terms is true exactly when every representation bit
+    # agrees (the representation is canonical: distinct (vars, xnor) denote distinct functions)
+    if not eqs:
+        chk.refuted("C13.E", "anchor-missing: PartialEq for Ecube", "")
+    else:
+        try:
+            it = Interp(facts)
+            st = State()
+            ea, eb = sym_ecube(vi, xi, "p"), sym_ecube(vi, xi, "q")
+            outs = it.call_body(eqs[0], [arg_for(eqs[0]["sig"]["inputs"][0], ea, st), arg_for(eqs[0]["sig"]["inputs"][1], eb, st)], st, {})
+            def clauses_of(c):
+                """a condition 'all these functions are 0' -> set of functions, else None"""
+                if isinstance(c, CS) and not c.neg and not c.has_top():
+                    return set(c.clauses)
+                if isinstance(c, W) and c.val is None and c.bits[0] is not None:
+                    b_ = c.bits[0]
+                    if b_[1] == "nos":
+                        return set(b_[2])
+                    return {B.bnot(b_)}
+                if isinstance(c, W) and c.val is not None and c.val:
+                    return set()
+                return None
+            v, d = UNDECIDED, "equality summary not recognised"
+            rets = [o for o in outs if o.kind == "return"]
+            pos = [o for o in rets if not (isinstance(o.value, W) and o.value.val == 0)]
+            if len(rets) == len(outs) and len(pos) == 1:
+                o = pos[0]
+                want = {}
+                for k_, (x_, y_) in enumerate(zip(ea.fields[vi].all_bits(), eb.fields[vi].all_bits())):
+                    want[B.bxor(x_, y_)] = "variable %d" % k_
+                want[B.bxor(ea.fields[xi].all_bits()[0], eb.fields[xi].all_bits()[0])] = "the polarity"
+                parts = [clauses_of(c) for c in o.pc] + [clauses_of(o.value)]
+                cl = None if any(p_ is None for p_ in parts) else set().union(*parts)
+                if cl is None:
+                    v, d = UNDECIDED, "equality summary %r" % (o.value,)
+                elif cl == set(want):
+                    v, d = PROVED, ""
+                elif cl < set(want):
+                    miss = sorted(want[c] for c in set(want) - cl)
+                    v, d = REFUTED, "two terms that differ only in %s compare equal although they denote different functions" % miss[0]
+                else:
+                    v, d = UNDECIDED, "equality compares something else than the representation bits"
+        except Undecided as ex:
+            v, d = UNDECIDED, ex.cause
+        chk.add("C13.E", "Ecube == is equality of (vars, xnor), bit for bit", v, d, where=where_of(eqs[0]))
     ecube_small(chk, facts, vi, xi)
     # ------------------------------------------------------------------ Soes
     Cs = reduction_rules(chk, facts, SOES, "or", "C13.S", "std::ops::BitOr")
